@@ -7,6 +7,7 @@ use xot::Node;
 pub fn register(v: &mut Vec<(&'static str, crate::Harness)>) {
     v.push(("h_c04_step", h_c04_step));
     v.push(("h_c06_step", h_c06_step));
+    v.push(("h_c04_xmlid", h_c04_xmlid));
 }
 
 /// the catalogue forests, plus forest 0 built with text consolidation off (three adjacent text
@@ -129,4 +130,50 @@ pub fn h_c06_step() {
     } else {
         sym::cover("c06-ok");
     }
+}
+
+/// C04 "no accessor ever hands out a removed node", for the one accessor that answers from a table filled at
+/// parse time: after one removing / moving call on a parsed document with xml:id attributes, `xml_id_node`
+/// returns nothing or a live node.
+pub fn h_c04_xmlid() {
+    let mut xot = xot::Xot::new();
+    let idc = sym::any_string("id", 1);
+    for c in idc.chars() {
+        sym::assume(c.is_ascii_alphabetic());
+    }
+    let src = format!("<a><b xml:id=\"{}\"><c xml:id=\"j9\"/>u</b>t<d/></a>", idc);
+    let doc = match xot.parse(&src) {
+        Ok(d) => d,
+        Err(_) => {
+            sym::check("well-formed-document-accepted", false);
+            return;
+        }
+    };
+    let a = xot.document_element(doc).unwrap();
+    let b = xot.first_child(a).unwrap();
+    let c = xot.first_child(b).unwrap();
+    let d = xot.last_child(a).unwrap();
+    let target = [b, c, d, a][sym::choose("target", 4)];
+    sym::check("id-found-before", xot.xml_id_node(doc, &idc) == Some(b) && xot.xml_id_node(doc, "j9") == Some(c));
+    let r = match sym::choose("op", 5) {
+        0 => xot.remove(target).is_ok(),
+        1 => xot.detach(target).is_ok(),
+        2 => xot.element_unwrap(target).is_ok(),
+        3 => {
+            let name = xot.add_name("n");
+            let fresh = xot.new_element(name);
+            xot.replace(target, fresh).is_ok()
+        }
+        _ => {
+            let t = xot.new_text("z");
+            xot.replace(target, t).is_ok()
+        }
+    };
+    sym::emit_u64("ok", r as u64);
+    for id in [idc.as_str(), "j9"] {
+        if let Some(n) = xot.xml_id_node(doc, id) {
+            sym::check("xml-id-node-is-live", !xot.is_removed(n));
+        }
+    }
+    sym::cover("c04-xmlid-end");
 }
